@@ -121,7 +121,8 @@ def build(fluxcase, rendered, damage=None):
             p = base_params if fluxcase.get('params', 'same') == 'same' else flux.gen_params(rng, enc, spt)
             order = flux.sector_order(rng, spt, fluxcase.get('order'))
             surf = rendered[s]
-            secs = [(r, surf[(t * spt + r) * 256:(t * spt + r + 1) * 256]) for r in order]
+            marks = fluxcase.get('marks') or {}
+            secs = [(r, surf[(t * spt + r) * 256:(t * spt + r + 1) * 256], marks.get('%d:%d:%d' % (s, t, r), 0xFB)) for r in order]
             cells, regions = flux.encode_track(enc, t, s, secs, p)
             info['regions'][(s, t)] = regions
             info['order'][(s, t)] = order
@@ -166,3 +167,51 @@ def gen_fluxcase(rng, enc=None, container=None, sides=None, small=False):
                             ['nop', 'setindex', 'setbitrate', 'skipbits'], []])
         fc['v3'] = {'density': rng.choice([1, 3, 10, 40]), 'kinds': kinds}
     return fc
+
+
+def gen_hostile_flux(rng, sides=1):
+    """A small flux image description with legal-but-unusual recordings (deleted-data and other data marks)
+    and/or cell damage, for the fail-cleanly and option-independence checks.
+    Returns (fluxcase, damage dict with 'side:track' keys)."""
+    fc = gen_fluxcase(rng, small=True, sides=sides)
+    marks = {}
+    damage = {}
+    what = rng.weighted([(3, 'marks'), (3, 'damage'), (2, 'both'), (1, 'none')])
+    if what in ('marks', 'both'):
+        for _ in range(rng.weighted([(4, 1), (2, 2), (1, rng.randint(3, 12))])):
+            side = rng.below(fc['sides'])
+            t = rng.below(fc['tracks'])
+            r = rng.weighted([(2, 0), (2, fc['spt'] - 1), (3, rng.below(fc['spt']))])
+            marks['%d:%d:%d' % (side, t, r)] = rng.choice([0xF8, 0xF8, 0xF9, 0xFA, 0xFC, 0xFD])
+        if rng.chance(0.3):
+            # radial: the same sector of every track
+            r = rng.choice([0, fc['spt'] - 1])
+            mk = rng.choice([0xF8, 0xF9, 0xFA])
+            for t in range(fc['tracks']):
+                marks['0:%d:%d' % (t, r)] = mk
+    if what in ('damage', 'both'):
+        from .models import flux as _f
+        for _ in range(rng.randint(1, 3)):
+            side = rng.below(fc['sides'])
+            t = rng.below(fc['tracks'])
+            k = rng.weighted([(3, 'flip'), (3, 'drop'), (2, 'slip'), (1, 'trunc')])
+            op = {'k': k, 'region': rng.choice(['sync', 'idmark', 'id', 'idcrc', 'gap2', 'datamark', 'data', 'datacrc', 'gap3']),
+                  'rec': rng.below(fc['spt']), 'off': rng.below(100000)}
+            if k == 'drop':
+                op['len'] = rng.choice([16, 100, 1000])
+                op['v'] = 0
+            elif k == 'slip':
+                op['ins'] = rng.below(2)
+            damage['%d:%d' % (side, t)] = damage.get('%d:%d' % (side, t), []) + [op]
+    fc['marks'] = marks
+    return fc, damage
+
+
+def build_from_json(fluxcase, surfaces_json, damage_json):
+    from .models import dfsdisc as dd
+    rendered = [dd.Surface.from_json(s).render() for s in surfaces_json]
+    dmg = {}
+    for k, ops in (damage_json or {}).items():
+        s, t = k.split(':')
+        dmg[(int(s), int(t))] = ops
+    return build(fluxcase, rendered, dmg)
